@@ -331,10 +331,13 @@ def flatten(stmts, guards, where, aliases, out):
                 elif a:
                     raise ExtractFail(where, "`if (pretty)` without else emits more than indentation: %r" % (a,))
                 continue
+            pos, neg = "true", "false"
+            if cond.startswith("!") and cond[1:] in CONDS:
+                cond, pos, neg = cond[1:], "false", "true"
             if cond not in CONDS:
                 raise ExtractFail(where, "condition `%s` is not a known module-shape test" % st[1].strip())
-            if flatten([st[2]], guards + [".%s true" % CONDS[cond]], where, aliases, out) or \
-                    (st[3] is not None and flatten([st[3]], guards + [".%s false" % CONDS[cond]], where, aliases, out)):
+            if flatten([st[2]], guards + [".%s %s" % (CONDS[cond], pos)], where, aliases, out) or \
+                    (st[3] is not None and flatten([st[3]], guards + [".%s %s" % (CONDS[cond], neg)], where, aliases, out)):
                 raise ExtractFail(where, "conditional `break`")
         elif k == "switch":
             if nows(st[1]) != "dataSegmentMode":
